@@ -181,6 +181,20 @@ fn dump(src: &str) -> Option<Dump> {
     }
 }
 
+/// does the program end in an expression statement (so that its value is left on the stack)?
+fn ends_with_value(src: &str) -> bool {
+    let Some(last) = src.lines().map(|l| l.trim()).filter(|l| !l.is_empty()).last() else { return false };
+    const NOT: [&str; 20] = ["println", "print(", "assert", "let ", "var ", "fn ", "type ", "use ", "}", "//", "if ", "while ",
+        "for ", "match ", "break", "continue", "return", "eprint", "implement", "extend"];
+    let paren = last.starts_with('(');
+    if NOT.iter().any(|k| last.starts_with(k)) || last.ends_with('{') || (last.ends_with(')') && !paren) {
+        // a trailing call may be void; only operator/identifier/literal/index/field expressions are trusted
+        return false;
+    }
+    let stripped = last.replace("==", "").replace("<=", "").replace(">=", "").replace("!=", "");
+    !stripped.contains('=')
+}
+
 // ------------------------------------------------------------------ corpus
 fn corpus() -> Vec<String> {
     let text = std::fs::read_to_string("/repo/abra_core/tests/integration/e2e_bytecode.rs").unwrap_or_default();
@@ -686,7 +700,7 @@ fn main() {
 
     // ---------- (1) + (2): corpus and generated programs
     let mut programs: Vec<(String, String)> = corpus().into_iter().enumerate().map(|(i, s)| (format!("corpus{i}"), s)).collect();
-    let n_gen = if quick { 160 } else { 5000 };
+    let n_gen = if quick { 160 } else { 2000 };
     for i in 0..n_gen {
         programs.push((format!("gen{i}"), gen_program(&mut ctx.rng)));
     }
@@ -716,15 +730,20 @@ fn main() {
     let results = par_map(&programs, |(_, src)| {
         let mut on = run_canon(src, false);
         let mut off = run_canon(src, true);
-        if on.top != off.top {
-            // the slot order of locals depends on hash-set iteration over node ids that differ between
-            // compilations: the value left on the stack is only meaningful when the program ends in an
-            // expression. Compare it only when it is stable across two identical compilations.
-            let again = run_canon(src, false);
-            if again.top != on.top {
-                on.top = "unstable".into();
-                off.top = "unstable".into();
-            }
+        // The value left on main's stack is the program's value only when the last statement is an
+        // expression; otherwise it is whichever local got the last slot (hash-set order over node ids that
+        // differ between compilations). Compare it only when the source ends in an expression line AND it
+        // is stable over repeated compilations.
+        let mut keep_top = ends_with_value(src);
+        if keep_top && on.top != off.top {
+            let on2 = run_canon(src, false);
+            let on3 = run_canon(src, false);
+            let off2 = run_canon(src, true);
+            keep_top = on2.top == on.top && on3.top == on.top && off2.top == off.top;
+        }
+        if !keep_top {
+            on.top = "n/a".into();
+            off.top = "n/a".into();
         }
         let dump = if on.status == "rejected" { None } else { dump(src) };
         PRes { on, off, dump }
